@@ -121,6 +121,17 @@ impl ZbsDiff {
         let header = ZbsdiffHeader::read_options(&mut cursor, binrw::Endian::Little, ())?;
         header.validate()?;
 
+        // The block sizes are header fields: they must fit in what follows the
+        // header before buffers of that size are allocated
+        let remaining = (data.len() as u64).saturating_sub(cursor.position());
+        let needed = header.control_size as u64 + header.diff_size as u64;
+        if needed > remaining {
+            return Err(ZbsdiffError::insufficient_data(
+                needed as usize,
+                remaining as usize,
+            ));
+        }
+
         // Read compressed blocks based on header sizes
         let mut control_data = vec![0u8; header.control_size as usize];
         cursor.read_exact(&mut control_data)?;
